@@ -2,7 +2,7 @@
     (F12, F82, F83), and the replays of the repaired findings (F8, F14, F81) which now satisfy the property. *)
 From Coq Require Import List NArith Bool String Lia.
 Import ListNotations.
-From TV Require Import Summary.Model Summary.Proofs Summary.ProofsStack Summary.ProofsHint.
+From TV Require Import Summary.Model Summary.Proofs Summary.ProofsStack Summary.ProofsHint Summary.ProofsPlain.
 Local Open Scope N_scope.
 
 (** metadata of the harness pool *)
@@ -74,6 +74,18 @@ Lemma ex_hint_nonvacuous :
   CLeafOK ex_hint /\ c_f83 ex_hint = false /\ c_hint ex_hint = Some (Some DEBUG) /\ above m_trace_ev (Some DEBUG) /\
   deliver ex_hint m_trace_ev cx0 = [] /\ deliver ex_hint m_info_ev cx0 = [1] /\
   c_f83 ex_hint_none = false /\ c_hint ex_hint_none = None /\ deliver ex_hint_none m_debug_ev cx0 = [2].
+Proof. ex_solve. Qed.
+
+Definition f83_stack_for_plain : coll :=
+  With (Rec 1) (With (Pair (Filtered (Rec 2) (lvl INFO)) LNone) Registry).
+(** plain stacks: a None layer as a whole `.with(None)` layer, Vec / pair / Box / reload trees without None inside *)
+Definition ex_plain : coll :=
+  With (LVec [Rec 3; Glob (lvl DEBUG)])
+    (With LNone (With (Pair (Filtered (Rec 2) (lvl WARN)) (LReload (Glob (lvl INFO)))) (With (LVec []) Registry))).
+Lemma ex_plain_nonvacuous :
+  CLeafOK ex_plain /\ c_plain ex_plain = true /\ c_hint ex_plain = Some (Some INFO) /\ above m_debug_ev (Some INFO) /\
+  deliver ex_plain m_debug_ev cx0 = [] /\ deliver ex_plain m_info_ev cx0 = [3] /\
+  c_plain f83_stack_for_plain = false.
 Proof. ex_solve. Qed.
 
 (** F82 (still in the tree): [Filtered::register_callsite] ignores the Interest of the layer it wraps.
